@@ -71,7 +71,9 @@ type ReqInfo struct {
 	dead      bool
 	sproc     *sched.Proc
 	timer     *manualDeadline
-	saving    int // entry object this request is handing to the store
+	// clientGone: the script cancelled the request's context while it was queued behind a fetch
+	clientGone bool
+	saving     int // entry object this request is handing to the store
 }
 
 var inProcessServer = &http.Server{}
@@ -164,6 +166,8 @@ type World struct {
 	Policy func(ri *ReqInfo, req *http.Request) Outcome
 	// PanicAfterProxy procs whose handler must panic after the proxy returned
 	dispCfgs []DispCfg
+	// OriginAge > 0: cacheable answers of the harness upstream carry an Age of their own
+	OriginAge int
 }
 
 var gatePoints = map[string]bool{
@@ -639,13 +643,13 @@ func (w *World) finish(ri *ReqInfo, code int, h http.Header, body []byte, res *R
 		// the scripted panic of the handler chain, or an origin that broke off inside the body, are the environment's
 		// doing; any other panic is pike's own
 		errClass = "own"
-		if ri.used.Kind == "panic" || ri.used.Kind == "cut" || ri.used.Kind == "error" || ri.used.Kind == "timeout" || ri.used.Kind == "gone" {
+		if ri.used.Kind == "panic" || ri.used.Kind == "cut" || ri.used.Kind == "error" || ri.used.Kind == "timeout" || ri.used.Kind == "gone" || ri.clientGone {
 			errClass = "upstream"
 		}
 		res.Ver = 0
 	} else if code >= 400 && h.Get("X-Ver") == "" {
 		// an error generated by pike: caused by the upstream outcome, or its own
-		if ri.used.Kind == "error" || ri.used.Kind == "timeout" || ri.used.Kind == "gone" {
+		if ri.used.Kind == "error" || ri.used.Kind == "timeout" || ri.used.Kind == "gone" || ri.clientGone {
 			errClass = "upstream"
 		} else {
 			errClass = "own"
@@ -656,7 +660,8 @@ func (w *World) finish(ri *ReqInfo, code int, h http.Header, body []byte, res *R
 		// the responder did not run (error / panic): fall back to the label the cache middleware chose
 		label = ri.labelSeen()
 	}
-	if label == "hit" {
+	if label == "hit" && w.OriginAge == 0 {
+		// (the Age rule of the property speaks of answers that carried no Age of their own)
 		ageNow := ri.DecNow
 		if ri.HasAge && ri.AgeNow != -1 {
 			ageNow = ri.AgeNow
@@ -774,6 +779,14 @@ func (w *World) point(pt string, obj interface{}, args ...interface{}) {
 				ri.lastLabel = statusName(st)
 			}
 			w.emitLocked(Event{"op": "Decide", "r": ri.Rid, "label": statusName(st), "wait": wait, "now": now, "v": ver})
+		}
+		w.mu.Unlock()
+	case "hfp.lock":
+		// a fetcher whose client had gone before it was sent to the upstream: the transport refused the round trip,
+		// the fetch is over without a contact
+		w.mu.Lock()
+		if ri := w.reqGid[gid]; ri != nil && ri.clientGone && ri.Contacts == 0 {
+			w.emitLocked(Event{"op": "UpEnd", "r": ri.Rid, "hasResp": false, "ttl": 0})
 		}
 		w.mu.Unlock()
 	case "get.woken":
@@ -920,6 +933,21 @@ func (w *World) effHfp(disp string) int {
 	return 300
 }
 
+// ClientGone cancels the context of the request proc r is running (its client has gone away)
+func (w *World) ClientGone(proc string) error {
+	w.mu.Lock()
+	defer w.mu.Unlock()
+	for _, ri := range w.reqs {
+		if ri.Proc == proc && ri.timer != nil {
+			ri.clientGone = true
+			ri.timer.err = context.Canceled
+			ri.timer.fire()
+			return nil
+		}
+	}
+	return fmt.Errorf("no request for proc %s", proc)
+}
+
 // SetOutcome scripts the answer of the upstream for the request proc r is running
 func (w *World) SetOutcome(proc string, o Outcome) error {
 	w.mu.Lock()
@@ -1039,6 +1067,11 @@ func (w *World) upstreamHandler(rw http.ResponseWriter, req *http.Request) {
 	case "cacheable":
 		ttl = out.TTL
 		h.Set("Cache-Control", "max-age="+strconv.Itoa(out.TTL))
+		if w.OriginAge > 0 && ri.Proc != "" {
+			// the answer has spent some time in a cache nearer to the origin: the lifetime left is the same
+			h.Set("Cache-Control", "max-age="+strconv.Itoa(out.TTL+w.OriginAge))
+			h.Set("Age", strconv.Itoa(w.OriginAge))
+		}
 		if w.CorruptGzip && ri.Proc != "" && out.Body == nil {
 			// an origin that labels as gzip something that is not: delivered as it is to clients accepting gzip
 			h.Set("Content-Encoding", "gzip")
